@@ -10,6 +10,7 @@ pub struct RecDest {
     pub calls: usize,          // seek calls + non-empty write calls
     pub writes: usize,
     pub fail_at: Option<usize>,
+    pub panic_at: Option<usize>,       // the destination's own code panics at that call (the request unwinds)
     pub snaps: Vec<(bool, Vec<u8>)>,   // (at least one write completed, whole content) after each call
     pub keep: bool,
     pub chunk: Option<usize>,          // accept at most this many bytes per write call (short writes are legal for Write)
@@ -17,10 +18,11 @@ pub struct RecDest {
 impl RecDest {
     pub fn new(content: Vec<u8>, pos: u64, keep: bool) -> Self {
         let mut inner = Cursor::new(content); inner.set_position(pos);
-        RecDest { inner, calls: 0, writes: 0, fail_at: None, snaps: vec![], keep, chunk: None }
+        RecDest { inner, calls: 0, writes: 0, fail_at: None, panic_at: None, snaps: vec![], keep, chunk: None }
     }
     fn tick(&mut self) -> std::io::Result<()> {
         self.calls += 1;
+        if Some(self.calls) == self.panic_at { panic!("injected panic in the destination"); }
         if Some(self.calls) == self.fail_at { return Err(std::io::Error::other("injected destination failure")); }
         Ok(())
     }
